@@ -1,3 +1,3 @@
 import pdo_check
 def run(ctx):
-    pdo_check.run(ctx, ["C14T", "C14R"], quick_edges=9000, walks=(40, 2000))
+    pdo_check.run(ctx, ["C14T", "C14R", "C14W", "C14X"], quick_edges=9000, walks=(40, 2000))
